@@ -104,12 +104,9 @@ def asMap : XVal → Except Err KVs
   | .map kvs => .ok kvs
   | _ => .error .fail
 
-/-- One key of `concatMaps`: the values gathered for the key, in chunk order
-    (`toSliceValue` type check against the first value, then `concatMaps` /
-    `concatSliceValue`).  `rec` concatenates nested maps. -/
-def perKey (cfg : Cfg) (rec : List KVs → Except Err KVs) (vs : List XVal) : Except Err XVal :=
-  let ws := if cfg.nilAbsent then vs.filter (fun v => !v.isNil) else vs
-  match ws with
+/-- the values of one key after the `toSliceValue` stage: type check against the first
+    value, then `concatMaps` / `concatSliceValue`.  `rec` concatenates nested maps. -/
+def perKeyW (cfg : Cfg) (rec : List KVs → Except Err KVs) : List XVal → Except Err XVal
   | [] => .ok .nil                       -- only nil values seen: the key keeps a nil value
   | .nil :: _ => .error .panic           -- reflect.SliceOf(reflect.TypeOf(nil))
   | .sc ty v :: rest => do
@@ -119,6 +116,14 @@ def perKey (cfg : Cfg) (rec : List KVs → Except Err KVs) (vs : List XVal) : Ex
     let ms ← rest.mapM asMap
     let r ← rec (kvs :: ms)
     pure (.map r)
+
+/-- with the guard, nil interface values are not gathered at all -/
+def dropNil (cfg : Cfg) (vs : List XVal) : List XVal :=
+  if cfg.nilAbsent then vs.filter (fun v => !v.isNil) else vs
+
+/-- One key of `concatMaps`: `vs` = the values gathered for the key, in chunk order. -/
+def perKey (cfg : Cfg) (rec : List KVs → Except Err KVs) (vs : List XVal) : Except Err XVal :=
+  perKeyW cfg rec (dropNil cfg vs)
 
 /-- keys in order of first appearance -/
 def keysOf : List String → List String
